@@ -213,6 +213,11 @@ func mkRat(n, d *smt.Term) RatVal {
 
 func (vm *VM) mulTerms(a, b *smt.Term, what string) *smt.Term {
 	if !smt.IsLinearMul(a, b) {
+		if vm.ConcreteValues == nil {
+			if p := vm.pinTerm(a); p != nil {
+				return smt.Mul(p, b)
+			}
+		}
 		vmErr("%s: symbolic x symbolic multiplication (%s * %s)", what, a, b)
 	}
 	return smt.Mul(a, b)
